@@ -24,7 +24,7 @@ def obligations(tier: str) -> list[Ob]:
         harness_ob(
             "failed_step_keeps_state", "C08_state.py", tier, timeout=240 if q else 900, cpus=4,
             encoded=["openapi_python_client.parser.properties:property_from_data", "openapi_python_client.parser.properties.schemas:update_schemas_with_data", "openapi_python_client.parser.openapi:Endpoint.add_parameters"],
-            bounds={"bad pieces": "pool of 8 invalid schemas", "pre-state": "0-2 registered classes", "overridden path-item parameter": "4 locations x 5 schemas (4 invalid, 1 valid inline enum) x with/without another inherited parameter"},
+            bounds={"bad pieces": "pool of 13 invalid schemas", "pre-state": "0-2 registered classes", "overridden path-item parameter": "4 locations x 5 schemas (4 invalid, 1 valid inline enum) x with/without another inherited parameter"},
         ),
         harness_ob(
             "dependants_removed_at_every_position", "C08_deps.py", tier, funcs=["dependants_are_removed", "rejected_duplicate_spares_the_existing_class"], timeout=400 if q else 1200, cpus=2,
